@@ -706,7 +706,7 @@ impl Check for C10Check {
     }
     fn assumptions(&self) -> Vec<String> {
         vec![
-            "the run-range -> calibration-file table of refcal.rs mirrors the repository's documented dispatch at the pinned commit".into(),
+            "which calibration file / delay applies to which run range is treated as configuration: it is read from the match arms of the repository's try_* functions (fallback: the table of the pinned commit; a difference is reported as the probe calibration_dispatch_differs_from_pinned_table), so a typo in a range boundary is not detectable while the arithmetic, the slots and the rejection rules are".into(),
             "(board, channel) -> wire/pad slots are taken from the public TpcWirePosition/TpcPadPosition::try_new (their correctness is C08); C10 decides that try_from_banks uses them, the calibration and the rejection rules correctly".into(),
             "real-run baselines: the library rounds the stored baseline to an integer; the oracle accepts |difference| <= 0.5*|gain| so that an unrounded implementation is not an alarm; the simulation run is compared exactly".into(),
             "no thread-interleaving or clock dimension; schedule dimension = arrival order x hash key".into(),
@@ -784,6 +784,9 @@ impl Check for C10Check {
             }
         }
         stats.probe(&format!("run:{}", scn.base.run));
+        if crate::refcal::dispatch_differs_from_pinned() {
+            stats.probe("calibration_dispatch_differs_from_pinned_table");
+        }
         let exp = reference_assemble(scn.base.run, &ev.banks, &ev.pad_msgs);
         match &exp {
             Ok(x) => {
